@@ -78,6 +78,8 @@ RISKY = [
     # containers that hold nothing but footnote definitions (which a transform moves away) and are link targets themselves
     ["(notes)=", "> [^qa]: in a quote", "", "x[^qa] [t](#notes) [](#notes)"], ["{#qid}", "> [^qb]: only a footnote", "> [^qc]: and another", "", "y[^qb] z[^qc] [u](#qid)"], ["(lst)=", "- [^qd]: in a list", "", "z[^qd] [v](#lst)"],
     ["(nt)=", "```{note}", "[^qe]: in a note", "```", "", "w[^qe] [n](#nt)"], ["> (inner)=", "> > [^qf]: nested quote", "", "v[^qf] [i](#inner)"], ["{#did}", ":::{tip}", "[^qg]: in a colon fence", ":::", "", "u[^qg] [d](#did)"],
+    # inline constructs inside text that is only used as a plain string (an image's alt text)
+    ["![Result [^ia]](fig.png)", "", "[^ia]: note for the image"], ["![alt {{ kf }} `c` $m$ [span]{#altid}](fig.png)", "", "[^sf]: note"], ["![a (tgt-in-alt)= [l](#far-target)](i.png) [^ib]", "", "[^ib]: n"],
     # html blocks that are only partly convertible, their names linked to
     ['<img src="a.png" name="hx"><b>tail</b>', "", "[t](#hx) [](#hx)"], ['<div class="admonition" name="ha"><p>x</p></div><span>tail</span>', "", "[t](#ha)"], ['<img src="a.png" name="hy"><img alt="nosrc">', "", "[t](#hy)"],
     ['<img src="a.png" name="hz">', '<div class="admonition" name="hz"><p>x</p></div>', "", "[t](#hz)"], ['text <img src="a.png" name="hi"> <b>b</b> [t](#hi)'], ['<div class="admonition" name="hq">', "<img src=\"q.png\" name=\"hq2\">", "</div>", "", "[a](#hq) [b](#hq2)"],
@@ -108,6 +110,19 @@ def setup(ctx):
         return r
 
     DocutilsRenderer.render_restructuredtext = tagging
+    # remember which bare containers were handed to a DIRECTIVE's nested parse: only a tree thrown away by a directive is the recorded finding
+    from myst_parser.mocking import MockState
+
+    orig_np = MockState.nested_parse
+    oracle.SCRATCH = []
+
+    def noting(self, block, input_offset, node, *a, **kw):
+        if type(node) is nodes.Element:
+            oracle.SCRATCH.append(node)
+            del oracle.SCRATCH[:-400]
+        return orig_np(self, block, input_offset, node, *a, **kw)
+
+    MockState.nested_parse = noting
     from .c05 import register_titled_directive
 
     register_titled_directive()  # a directive that nested-parses with match_titles=True (what Sphinx' ``only`` does)
